@@ -33,6 +33,12 @@ pub fn rich_schema() -> Schema {
     sb.add_ip_addr_field("ip", INDEXED | FAST);
     sb.add_i64_field("pop", INDEXED | FAST);
     sb.add_text_field("cat", STRING | FAST);
+    // the `num` values again under the path `v` of a JSON fast field (an i64 column queried with f64 bounds)
+    sb.add_json_field("js", FAST);
+    // the title tokens again, indexed with frequencies but without fieldnorms
+    let nf = TextOptions::default().set_indexing_options(
+        TextFieldIndexing::default().set_tokenizer("default").set_index_option(IndexRecordOption::WithFreqs).set_fieldnorms(false));
+    sb.add_text_field("nf", nf);
     sb.build()
 }
 
@@ -62,6 +68,7 @@ pub fn to_doc(schema: &Schema, d: &Value) -> TantivyDocument {
     if let Some(t) = d.get("title").and_then(|x| x.as_array()) {
         let toks: Vec<String> = t.iter().map(|x| x.as_str().unwrap().to_string()).collect();
         doc.add_text(f("title"), toks.join(" "));
+        doc.add_text(f("nf"), toks.join(" "));
     }
     if let Some(t) = d.get("tag").and_then(|x| x.as_array()) {
         for w in t {
@@ -72,6 +79,12 @@ pub fn to_doc(schema: &Schema, d: &Value) -> TantivyDocument {
     for v in ints(d, "num") {
         doc.add_i64(f("num"), v);
         doc.add_i64(f("numi"), v);
+    }
+    if !ints(d, "num").is_empty() {
+        let vals: Vec<OwnedValue> = ints(d, "num").into_iter().map(OwnedValue::I64).collect();
+        let mut obj = std::collections::BTreeMap::new();
+        obj.insert("v".to_string(), OwnedValue::Array(vals));
+        doc.add_object(f("js"), obj);
     }
     for v in ints(d, "u") {
         doc.add_u64(f("u"), v as u64);
@@ -273,6 +286,27 @@ pub fn build_query(schema: &Schema, q: &Value) -> Result<Box<dyn Query>, String>
             }
             Box::new(RangeQuery::new(lo, hi))
         }
+        // range over the JSON path js.v with f64 bounds given in halves: {"b":"in","h":3} = Included(1.5)
+        "jrange" => {
+            let field = schema.get_field("js").map_err(|e| e.to_string())?;
+            let jb = |b: &Value| -> Bound<Term> {
+                let mk = |h: i64| {
+                    let mut t = Term::from_field_json_path(field, "v", false);
+                    t.append_type_and_fast_value(h as f64 / 2.0);
+                    t
+                };
+                match b["b"].as_str().unwrap_or("un") {
+                    "in" => Bound::Included(mk(b["h"].as_i64().unwrap())),
+                    "ex" => Bound::Excluded(mk(b["h"].as_i64().unwrap())),
+                    _ => Bound::Unbounded,
+                }
+            };
+            let (lo, hi) = (jb(&q["lo"]), jb(&q["hi"]));
+            if matches!(lo, Bound::Unbounded) && matches!(hi, Bound::Unbounded) {
+                return Err("range without bound (API precondition)".into());
+            }
+            Box::new(RangeQuery::new(lo, hi))
+        }
         "set" => {
             let ts: Vec<Term> = q["ts"].as_array().unwrap().iter().map(|t| field_term(schema, fname, t)).collect::<Result<_, String>>()?;
             Box::new(TermSetQuery::new(ts))
@@ -348,114 +382,19 @@ pub fn leaves(q: &Value) -> usize {
     }
 }
 
-/// some leaf of the query is answered by a BitSetDocSet (recorded finding: advance() after a seek
-/// past the last document resumes the iteration)
-pub fn has_bitset_leaf(schema: &Schema, q: &Value) -> bool {
-    match q["k"].as_str().unwrap_or("") {
-        "set" | "fuzzy" | "regex" => true,
-        "range" => {
-            let f = schema.get_field(q["f"].as_str().unwrap_or("")).ok();
-            f.map(|f| !schema.get_field_entry(f).field_type().is_fast()).unwrap_or(false)
-        }
-        "bool" => q["cl"].as_array().unwrap().iter().any(|c| has_bitset_leaf(schema, &c["q"])),
-        "dismax" => q["qs"].as_array().unwrap().iter().any(|x| has_bitset_leaf(schema, x)),
-        "boost" | "const" => has_bitset_leaf(schema, &q["q"]),
-        _ => false,
-    }
-}
-
-/// the scorer may contain a BufferedUnionScorer (recorded finding: fill_buffer leaves score() stale
-/// and does not clear the per-document score combiners)
-pub fn has_union(q: &Value) -> bool {
-    match q["k"].as_str().unwrap_or("") {
-        "bool" | "dismax" => true,
-        "boost" | "const" => has_union(&q["q"]),
-        _ => false,
-    }
-}
-
-fn is_phrase_like(q: &Value) -> bool {
-    match q["k"].as_str().unwrap_or("") {
-        "phrase" | "pprefix" | "rphrase" => true,
-        "boost" | "const" => is_phrase_like(&q["q"]),
-        _ => false,
-    }
-}
-
-/// Recorded finding: BufferedUnionScorer::seek_danger leaves a member that missed in the danger zone; if a
-/// later call succeeds through another member, the stale member's position (a document that has the
-/// terms of a phrase but not the phrase, or the lead document of an intersection) is taken as a match.
-/// True if some union (Should clauses / disjuncts) has a phrase-like or intersection member.
-pub fn union_has_danger_member(q: &Value) -> bool {
-    match q["k"].as_str().unwrap_or("") {
-        "bool" => {
-            let cl = q["cl"].as_array().unwrap();
-            cl.iter().any(|c| union_has_danger_member(&c["q"]))
-                || cl.iter().any(|c| c["o"] == "should" && (is_phrase_like(&c["q"]) || may_be_intersection(&c["q"])))
-        }
-        "dismax" => {
-            let qs = q["qs"].as_array().unwrap();
-            qs.iter().any(union_has_danger_member) || qs.iter().any(|x| is_phrase_like(x) || may_be_intersection(x))
-        }
-        "boost" | "const" => union_has_danger_member(&q["q"]),
-        _ => false,
-    }
-}
-
-/// some node of the tree may become a BufferedUnionScorer
-pub fn has_union_anywhere(q: &Value) -> bool {
-    match q["k"].as_str().unwrap_or("") {
-        "bool" | "dismax" => true,
-        "boost" | "const" => has_union_anywhere(&q["q"]),
-        _ => false,
-    }
-}
-
-/// the top-level scorer (through boost wrappers / single-clause shortcuts) may be an Intersection
-/// (recorded finding: its dense count_including_deleted leaves doc() on a stale document)
-pub fn may_be_intersection(q: &Value) -> bool {
-    match q["k"].as_str().unwrap_or("") {
-        "bool" => {
-            let cl = q["cl"].as_array().unwrap();
-            let n_must = cl.iter().filter(|c| c["o"] == "must").count();
-            // (a union whose other members are empty on the segment is replaced by its only member)
-            n_must >= 1 || q["msm"].as_u64().unwrap_or(0) >= 2 || cl.iter().any(|c| c["o"] != "mustnot" && may_be_intersection(&c["q"]))
-        }
-        "boost" => may_be_intersection(&q["q"]),
-        "dismax" => q["qs"].as_array().unwrap().iter().any(may_be_intersection),
-        _ => false,
-    }
-}
-
-/// top-level (through boost) DisjunctionMaxQuery whose disjuncts are all term queries reading
-/// frequencies, at least two of them (recorded finding: TopDocs scores it as a sum via block-WAND)
-pub fn is_toplevel_term_dismax(q: &Value) -> bool {
-    match q["k"].as_str().unwrap_or("") {
-        "dismax" => {
-            let qs = q["qs"].as_array().unwrap();
-            qs.len() >= 2 && qs.iter().all(|x| x["k"] == "term" && x["opt"] != "basic")
-        }
-        "boost" => is_toplevel_term_dismax(&q["q"]),
-        _ => false,
-    }
-}
-
 pub struct GenOpts {
     pub depth: u32,
     pub leaf_kinds: Vec<&'static str>,
     pub avoid_single_should_msm: bool,
-    /// generate ranges on the bool FAST field as well (recorded finding F34 repaired / under test)
-    pub bool_fast_range: bool,
 }
 
 impl GenOpts {
     pub fn all(depth: u32) -> GenOpts {
         GenOpts {
             depth,
-            leaf_kinds: vec!["term", "term", "term", "tagterm", "phrase", "phrase", "pprefix", "range", "range", "irange", "srange", "orange", "set", "exists",
+            leaf_kinds: vec!["term", "term", "term", "tagterm", "phrase", "phrase", "pprefix", "range", "range", "irange", "srange", "orange", "jrange", "set", "exists",
                              "all", "empty", "fuzzy", "regex", "rare", "absent"],
             avoid_single_should_msm: false,
-            bool_fast_range: false,
         }
     }
 }
@@ -520,6 +459,20 @@ pub fn gen_leaf(rng: &mut StdRng, o: &GenOpts) -> Value {
             let hi = lo + rng.random_range(-1..10i64);
             range_json(rng, "num", json!(lo), json!(hi))
         }
+        "jrange" => {
+            // f64 bounds (in halves) on the integer JSON column js.v.  Recorded finding: a positive non-integer lower bound and a
+            // negative non-integer upper bound are rounded toward zero - those two classes are left to the dedicated sub-run
+            let lo_h = rng.random_range(-14..62i64);
+            let hi_h = lo_h + rng.random_range(-2..20i64);
+            let lo_h = if lo_h > 0 && lo_h % 2 != 0 { lo_h + 1 } else { lo_h };
+            let hi_h = if hi_h < 0 && hi_h % 2 != 0 { hi_h - 1 } else { hi_h };
+            let mut lo = match rng.random_range(0..5) { 0 | 1 => json!({"b":"in","h":lo_h}), 2 | 3 => json!({"b":"ex","h":lo_h}), _ => json!({"b":"un"}) };
+            let hi = match rng.random_range(0..5) { 0 | 1 => json!({"b":"in","h":hi_h}), 2 | 3 => json!({"b":"ex","h":hi_h}), _ => json!({"b":"un"}) };
+            if lo["b"] == "un" && hi["b"] == "un" {
+                lo = json!({"b":"in","h":lo_h});
+            }
+            json!({"k":"jrange","lo":lo,"hi":hi})
+        }
         "irange" => {
             let lo = rng.random_range(-6..30i64);
             let hi = lo + rng.random_range(-1..10i64);
@@ -539,12 +492,21 @@ pub fn gen_leaf(rng: &mut StdRng, o: &GenOpts) -> Value {
                 2 => {
                     let lo = rng.random_range(0..2i64);
                     let hi = rng.random_range(lo..2);
-                    // "flag" (FAST) only when asked: RangeQuery on a bool FAST field returns InvalidArgument (recorded finding F34)
-                    let f = if o.bool_fast_range && rng.random_bool(0.5) { "flag" } else { "flagi" };
+                    // both the FAST bool field (fast-field range path) and the indexed-only one (term dictionary path)
+                    let f = if rng.random_bool(0.5) { "flag" } else { "flagi" };
                     range_json(rng, f, json!(lo), json!(hi))
                 }
                 3 => { let lo = rng.random_range(0..15i64); let hi = lo + rng.random_range(0..6); range_json(rng, "dt", json!(lo), json!(hi)) }
-                _ => { let lo = rng.random_range(0..15i64); let hi = lo + rng.random_range(0..6); range_json(rng, "ip", json!(lo), json!(hi)) }
+                _ => {
+                    let lo = rng.random_range(0..15i64);
+                    let hi = lo + rng.random_range(0..6);
+                    let mut q = range_json(rng, "ip", json!(lo), json!(hi));
+                    // recorded finding: the upper bound Excluded(::) underflows (matches every address): left to the dedicated sub-run
+                    if q["hi"]["b"] == "ex" && q["hi"]["v"] == 0 {
+                        q["hi"]["b"] = json!("in");
+                    }
+                    q
+                }
             }
         }
         "set" => {
